@@ -305,9 +305,11 @@ class Check:
             log("NOTE property=%s %s" % (self.pid, n))
         for key, hits in sorted(known_hit.items()):
             log("KNOWN-FINDING: property=%s %s [%s]" % (self.pid, open_keys[key].get("what", ""), key))
-        if self.tool_errors:
-            for t in self.tool_errors:
-                log("TOOL-ERROR property=%s %s" % (self.pid, t))
+        # a violation observed against the real code stands whatever else went wrong in the same run (part of the machinery
+        # may fail *because* of the defect, e.g. a trace generator meeting a parser that now refuses its own encoder's output)
+        for t in self.tool_errors:
+            log("TOOL-ERROR property=%s %s" % (self.pid, t))
+        if self.tool_errors and not violations:
             log("check %s: tool error (exit 2), wall %.1fs" % (self.pid, wall))
             return 2
         if violations:
